@@ -26,11 +26,10 @@ META = {
     'trusted': [
         'binary64 restricted to non-NaN values satisfies LawfulFloatOps (Base/Num.lean) and CompatLaws (Base/NumCompat.lean): tolerance '
         'band order convex for relative_resolution <= 1, x - p <= x <= x + p for p >= 0, integers between convertible integers convert, '
-        'integers up to 2^64 convert, finiteness between finite bounds; both classes are proved for the Rat carrier '
+        'integers up to 2^64 convert to finite floats, round() defined between defined points, finiteness between finite bounds; both classes are proved for the Rat carrier '
         '(FrappyProofs/Lemmas/CompatLawsRat.lean)',
-        'CompatLaws.sub_pos_lt / lt_add_pos (limit -/+ scale </> limit) are false for binary64 when scale < ulp(limit)/2; assumed for the '
-        'limits drawn (|grid index| <= 2^31)',
-        'ConstsOK2: +/-sys.float_info.max are canonical floats (x + 0.0 = x)',
+        'CompatLaws.grid_ge_lt / grid_le_lt (a number whose grid value is >= m lies above m - scale, dually) are false for binary64 when '
+        'scale < ulp(limit); assumed for the limits drawn (|grid index| <= 2^31)',
         'FrappyDrive/FloatInst.lean: Float instance of FloatOps',
     ],
     'modelled_not_verified': [
